@@ -1114,6 +1114,243 @@ def oracle_forms(ctx):
                              case, key="C13:glue:%s:option-form" % cname)
 
 
+# ----------------------------------------------------------------------------- positional / keyword call forms
+# Parameter order of the documented signatures, read from the pristine tree and fixed HERE (never introspected at run time: a changed
+# tree must not redefine what a positional call means):
+#   fdd.SD_est(Yall, Yref, dt, nxseg=1024, method="cor", pov=0.5)
+#   SingleSetup(data, fs);  <Algorithm>(run_params=None, name=None, **run parameter fields);  setup.add_algorithms(*algorithms);
+#   setup.run_by_name(name);  algorithm.set_run_params(run_params)
+SD_EST_ORDER = ("Yall", "Yref", "dt", "nxseg", "method", "pov")
+
+
+def pfail(ctx, entry, what, case):
+    ctx.fail("oracle", "%s: %s" % (entry, what), case, key="C13:%s:positional-call" % entry)
+
+
+def _sd_forms(Y, Yr, dt, n, method, pov):
+    """the same estimate requested in four call forms; every form gets fresh views of the caller's arrays. Values by name, in SD_EST_ORDER."""
+    vals = dict(Yall=Y, Yref=Yr, dt=dt, nxseg=n, method=method, pov=pov)
+
+    def args(k):
+        return [vals[p].view() if isinstance(vals[p], np.ndarray) else vals[p] for p in SD_EST_ORDER[:k]]
+
+    def kws(k):
+        return {p: (vals[p].view() if isinstance(vals[p], np.ndarray) else vals[p]) for p in SD_EST_ORDER[k:]}
+
+    return [("keyword", lambda: fdd.SD_est(**kws(0))),
+            ("positional", lambda: fdd.SD_est(*args(6))),
+            ("records and dt positional, options by keyword", lambda: fdd.SD_est(*args(3), **kws(3))),
+            ("all but pov positional", lambda: fdd.SD_est(*args(5), **kws(5)))]
+
+
+def positional_sd_case(ctx, method, n, fs, m, Y, Yr, case):
+    """SD_est(Yall, Yref, dt, nxseg, method, pov) called fully positionally in the documented order gives (a) bit for bit what the call with
+    every argument named gives (and the mixed forms the library itself uses), and (b) satisfies the property text: grid k*fs/nxseg,
+    n_all x n_ref x lines, entry (i, j) = channel i against reference j, 'per': Welch's estimate with THIS overlap (lines >= 2), g^2 scaling.
+    Every option differs from its default (nxseg != 1024, pov != 0.5, dt != 1; method 'per' != 'cor'), n_all != n_ref, data != reference."""
+    dt, pov = 1.0 / fs, m / n
+    nall, nref = Y.shape[0], Yr.shape[0]
+    keep = (Y.copy(), Yr.copy())
+    out = {}
+    for name, fn in _sd_forms(Y, Yr, dt, n, method, pov):
+        try:
+            with warnings.catch_warnings():
+                warnings.simplefilter("ignore")
+                f, S = fn()
+            out[name] = (np.asarray(f), np.asarray(S))
+        except Exception as ex:
+            out[name] = ex
+    if not (np.array_equal(Y, keep[0]) and np.array_equal(Yr, keep[1])):
+        pfail(ctx, "SD_est", "an input array was modified", case)
+        return
+    kwr = out["keyword"]
+    if isinstance(kwr, Exception):
+        ctx.fail("oracle", "SD_est(Yall=, Yref=, dt=, nxseg=, method=, pov=) with every documented parameter named raises %s (%s) on a valid record"
+                 % (type(kwr).__name__, str(kwr)[:160]), case, key="C13:SD_est:keyword-call")
+    for name in ("positional", "records and dt positional, options by keyword", "all but pov positional"):
+        r = out[name]
+        vcase = dict(case, form=name, order=list(SD_EST_ORDER))
+        if isinstance(r, Exception):
+            pfail(ctx, "SD_est", "call form '%s' in the documented order (Yall, Yref, dt, nxseg, method, pov) raises %s (%s) on a valid record"
+                  % (name, type(r).__name__, str(r)[:160]), vcase)
+            continue
+        if isinstance(kwr, Exception):
+            continue
+        if r[1].shape != kwr[1].shape or not np.array_equal(r[1], kwr[1]) or not np.array_equal(r[0], kwr[0]):
+            pfail(ctx, "SD_est", "call form '%s' (order Yall, Yref, dt, nxseg=%d, method=%r, pov=%r) differs from the call with every argument named: "
+                  "shape %s vs %s, rel. dev %.3g%s" % (name, n, method, pov, r[1].shape, kwr[1].shape,
+                                                      relerr(r[1], kwr[1]) if r[1].shape == kwr[1].shape else float("inf"),
+                                                      "" if np.array_equal(r[0], kwr[0]) else "; frequency vector differs"), vcase)
+    # (b) the property text on the positional call
+    r = out["positional"]
+    if isinstance(r, Exception):
+        return
+    f, S = r
+    pcase = dict(case, form="positional", order=list(SD_EST_ORDER))
+    fe = np.arange(n // 2 + 1) * fs / n
+    if f.shape != fe.shape or not np.allclose(f, fe, rtol=1e-12, atol=0):
+        pfail(ctx, "SD_est", "positional call: frequency vector is not one line every fs/nxseg (got %d lines, spacing %.9g; expected %d lines, spacing %.9g): "
+              "dt / nxseg did not arrive at their parameters" % (len(f), float(f[1] - f[0]) if len(f) > 1 else float("nan"), len(fe), fs / n), pcase)
+        return
+    if S.shape != (nall, nref, n // 2 + 1):
+        pfail(ctx, "SD_est", "positional call: Sy has shape %s, expected (n_all, n_ref, nxseg/2+1) = %s" % (S.shape, (nall, nref, n // 2 + 1)), pcase)
+        return
+    if method == "per":
+        W = welch_independent(Y, Yr, fs, n, m)
+        dev = relerr(S[:, :, 2:], W[:, :, 2:])
+        if dev > 1e-9:
+            pfail(ctx, "SD_est", "positional call ('per', nxseg=%d, pov=%r): differs from Welch's averaged Hann-windowed one-sided density with overlap %d "
+                  "(lines >= 2) by %.3g" % (n, pov, m, dev), pcase)
+            return
+    try:
+        with warnings.catch_warnings():
+            warnings.simplefilter("ignore")
+            i, j = nall - 1, 0
+            s1 = np.asarray(fdd.SD_est(Y[i:i + 1].copy(), Yr[j:j + 1].copy(), dt, n, method, pov)[1])
+            Sg = np.asarray(fdd.SD_est(-3.0 * Y, -3.0 * Yr, dt, n, method, pov)[1])
+    except Exception as ex:
+        pfail(ctx, "SD_est", "positional call raises %s (%s) on a valid record" % (type(ex).__name__, str(ex)[:160]), pcase)
+        return
+    if s1.shape != (1, 1, n // 2 + 1) or np.abs(s1[0, 0] - S[i, j]).max() > 1e-10 * np.abs(S).max():
+        pfail(ctx, "SD_est", "positional call: entry (%d,%d) is not the estimate of channel %d against reference %d" % (i, j, i, j), pcase)
+    elif Sg.shape != S.shape or relerr(Sg, 9.0 * S) > 1e-9:
+        pfail(ctx, "SD_est", "positional call: common gain -3 does not scale the matrix by 9", pcase)
+
+
+def positional_class_case(ctx, cname, method, n, fs, m, data, case):
+    """the classes of observe_at built and driven in both call forms: SingleSetup(data, fs) / SingleSetup(data=, fs=); Alg(run_params, name) /
+    Alg(run_params=, name=) / Alg(name=, **fields); set_run_params(rp) / set_run_params(run_params=rp); run_by_name(name) / run_by_name(name=).
+    Every form stores bit for bit the same freq/Sy, which is SD_est on the record ('per': Welch's estimate), under the name given."""
+    import pyoma2.algorithms as algs
+    from pyoma2.setup import SingleSetup
+    cls = getattr(algs, cname)
+    pov = m / n
+    fields = dict(nxseg=n, method_SD=method, pov=pov)
+    other = dict(nxseg=2 * n, method_SD="per" if method == "cor" else "cor", pov=0.0)
+    if cname == "pLSCF":
+        fields["ordmax"] = 6
+        other["ordmax"] = 5
+    nm = "unit_" + cname  # not the default name (the class name)
+
+    def positional():
+        ss = SingleSetup(data.copy(), fs)
+        alg = cls(cls.RunParamCls(**other), nm)
+        alg.set_run_params(cls.RunParamCls(**fields))
+        ss.add_algorithms(alg)
+        ss.run_by_name(nm)
+        return ss, alg
+
+    def keyword():
+        ss = SingleSetup(data=data.copy(), fs=fs)
+        alg = cls(run_params=cls.RunParamCls(**other), name=nm)
+        alg.set_run_params(run_params=cls.RunParamCls(**fields))
+        ss.add_algorithms(alg)
+        ss.run_by_name(name=nm)
+        return ss, alg
+
+    def positional_direct():
+        ss = SingleSetup(data.copy(), fs)
+        alg = cls(cls.RunParamCls(**fields), nm)
+        ss.add_algorithms(alg)
+        ss.run_by_name(nm)
+        return ss, alg
+
+    def fields_by_keyword():
+        ss = SingleSetup(data=data.copy(), fs=fs)
+        alg = cls(name=nm, **fields)
+        ss.add_algorithms(alg)
+        ss.run_by_name(name=nm)
+        return ss, alg
+
+    out = {}
+    for name, fn in (("keyword", keyword), ("fields by keyword", fields_by_keyword), ("positional", positional), ("positional, run_params in the constructor", positional_direct)):
+        try:
+            with warnings.catch_warnings():
+                warnings.simplefilter("ignore")
+                ss, alg = fn()
+            out[name] = dict(f=np.asarray(alg.result.freq), S=np.asarray(alg.result.Sy), name=alg.name, fs=float(ss.fs), keys=sorted(ss.algorithms),
+                             data_ok=bool(np.array_equal(np.asarray(ss.data), data)))
+        except Exception as ex:
+            out[name] = ex
+    ref = out["keyword"] if not isinstance(out["keyword"], Exception) else out["fields by keyword"]
+    if isinstance(ref, Exception):
+        ctx.fail("oracle", "%s(%s): building and running with every argument named raises %s (%s)" % (cname, method, type(ref).__name__, str(ref)[:160]),
+                 case, key="C13:glue:%s:exception" % cname)
+        return
+    try:
+        with warnings.catch_warnings():
+            warnings.simplefilter("ignore")
+            fx, Sx = fdd.SD_est(data.T.copy(), data.T.copy(), 1.0 / fs, n, method, pov)
+        fx, Sx = np.asarray(fx), np.asarray(Sx)
+    except Exception:
+        fx = Sx = None  # reported by positional_sd_case
+    W = welch_independent(data.T, data.T, fs, n, m) if method == "per" else None
+    fe = np.arange(n // 2 + 1) * fs / n
+    for name in ("keyword", "fields by keyword", "positional", "positional, run_params in the constructor"):
+        r = out[name]
+        vcase = dict(case, form=name)
+        entry = "glue:%s" % cname
+        if isinstance(r, Exception):
+            pfail(ctx, entry, "SingleSetup(data, fs) / %s(run_params, name) / set_run_params / run_by_name in call form '%s' raises %s (%s) on a valid record"
+                  % (cname, name, type(r).__name__, str(r)[:160]), vcase)
+            continue
+        if r["name"] != nm or r["keys"] != [nm] or r["fs"] != fs or not r["data_ok"]:
+            pfail(ctx, entry, "call form '%s': the algorithm is stored as %r under %r (given name %r), the setup holds fs=%r (given %r), data %s"
+                  % (name, r["name"], r["keys"], nm, r["fs"], fs, "unchanged" if r["data_ok"] else "changed"), vcase)
+            continue
+        if r is not ref and (r["S"].shape != ref["S"].shape or not np.array_equal(r["S"], ref["S"]) or not np.array_equal(r["f"], ref["f"])):
+            pfail(ctx, entry, "call form '%s' stores another freq/Sy than the construction with every argument named (rel. dev %.3g)"
+                  % (name, relerr(r["S"], ref["S"]) if r["S"].shape == ref["S"].shape else float("inf")), vcase)
+            continue
+        if r["f"].shape != fe.shape or not np.allclose(r["f"], fe, rtol=1e-12, atol=0) or r["S"].shape != (data.shape[1], data.shape[1], n // 2 + 1):
+            pfail(ctx, entry, "call form '%s': result.freq / Sy are not on the grid k*fs/nxseg with fs=%g, nxseg=%d (lines %d, Sy %s)"
+                  % (name, fs, n, len(r["f"]), r["S"].shape), vcase)
+            continue
+        if W is not None and relerr(r["S"][:, :, 2:], W[:, :, 2:]) > 1e-9:
+            pfail(ctx, entry, "call form '%s': result.Sy differs from Welch's estimate with nxseg=%d, overlap %d (lines >= 2) by %.3g"
+                  % (name, n, m, relerr(r["S"][:, :, 2:], W[:, :, 2:])), vcase)
+            continue
+        if Sx is not None and Sx.shape == r["S"].shape and relerr(r["S"], Sx) > 1e-12:
+            pfail(ctx, entry, "call form '%s': result.Sy differs from SD_est on the record with the parameters given (method %s) by %.3g"
+                  % (name, method, relerr(r["S"], Sx)), vcase)
+
+
+def oracle_positional(ctx):
+    rng = ctx.np_rng
+    for path in sorted(glob.glob(os.path.join(VERIF, "corpus", "C13", "*.json"))):
+        c = json.load(open(path))
+        if c.get("kind") == "positional":
+            ctx.count(dict(kind="corpus-positional", file=os.path.basename(path)))
+            positional_sd_case(ctx, c["method"], c["n"], c["fs"], c["noverlap"], np.array(c["Y"], float), np.array(c["Yref"], float), dict(c, corpus=os.path.basename(path)))
+    # nxseg never 1024, overlap never nxseg/2, fs never 1: a value that falls back to its default, or lands on a neighbouring parameter, shows
+    confs = [(16, 51.2, 4), (25, 12.5, 0), (48, 100.0, 36), (64, 0.5, 16), (100, 99.0, 75), (256, 20.0, 64)]
+    if not ctx.quick():
+        confs += [(32, 8.0, 24), (50, 37.0, 0), (128, 250.0, 32), (512, 2000.0, 384), (2048, 3.0, 512), (125, 51.2, 0)]
+    for (n, fs, m) in confs:
+        if exact_pov(n, m) is None:
+            ctx.not_judged += 1
+            continue
+        nall = int(rng.integers(2, 5))
+        nref = int(rng.integers(1, nall))          # n_all != n_ref: exchanging the two records changes the shape
+        N = max(m + int(rng.integers(3, 7)) * (n - m) + int(rng.integers(0, n - m)), n)
+        Y = rng.standard_normal((nall, N)) * rng.uniform(0.2, 5, (nall, 1)) + rng.uniform(-1, 1, (nall, 1))
+        Yr = rng.standard_normal((nref, N)) + 0.5 * Y[:1]
+        for method in ("per", "cor"):
+            case = dict(kind="positional", method=method, n=n, fs=fs, noverlap=m, pov=m / n, N=N, nall=nall, nref=nref,
+                        Y=Y[:, :64].tolist(), Yref=Yr[:, :64].tolist(), truncated=N > 64, data_note="ctx.np_rng stream")
+            ctx.count(dict(kind="positional", method=method, n=n, fs=fs, m=m, N=N, d=float(Y[0, 0])))
+            ctx.hist("positional_forms", ("SD_est", method, n))
+            positional_sd_case(ctx, method, n, fs, m, Y, Yr, case)
+    for ci, cname in enumerate(("FDD", "EFDD", "FSDD", "pLSCF")):
+        for mi, method in enumerate(("per", "cor")):
+            n, fs, m = [(32, 51.2, 8), (64, 12.5, 48), (16, 99.0, 0), (48, 20.0, 12)][(ci + mi) % 4]
+            data = dyad(rng, (m + 5 * (n - m) + 3, 3 if cname != "pLSCF" else 2))
+            case = dict(kind="class-positional", cls=cname, method=method, nxseg=n, fs=fs, noverlap=m, pov=m / n, data=data.tolist())
+            ctx.count(dict(kind="class-positional", cls=cname, method=method, n=n, fs=fs, m=m, d=float(data[0, 0]), e=float(data[1, 1])))
+            ctx.hist("positional_forms", (cname, method, n))
+            positional_class_case(ctx, cname, method, n, fs, m, data, case)
+
+
 def oracle_corpus(ctx):
     for path in sorted(glob.glob(os.path.join(VERIF, "corpus", "C13", "*.json"))):
         c = json.load(open(path))
@@ -1160,4 +1397,5 @@ def run(ctx):
     oracle_sinusoid(ctx)
     oracle_classes(ctx)
     oracle_forms(ctx)
+    oracle_positional(ctx)
     oracle_ownership(ctx)  # last: it overwrites returned arrays on purpose
